@@ -448,10 +448,11 @@ impl Octree {
 #[cfg(fidget_verif)]
 impl Octree {
     /// Returns `(depth, lower corner, upper corner, corner mask, first vertex
-    /// index, vertex count)` for every leaf cell that holds vertices
+    /// index, vertex positions)` for every leaf cell that holds vertices
+    #[allow(clippy::type_complexity)]
     pub fn verif_leaves(
         &self,
-    ) -> Vec<(usize, [f32; 3], [f32; 3], u8, usize, usize)> {
+    ) -> Vec<(usize, [f32; 3], [f32; 3], u8, usize, Vec<[f32; 3]>)> {
         let mut out = vec![];
         let mut todo = vec![CellIndex::<3>::default()];
         while let Some(c) = todo.pop() {
@@ -462,7 +463,9 @@ impl Octree {
                     c.corner(Corner::new(7)),
                     mask.index() as u8,
                     index,
-                    CELL_TO_VERT_TO_EDGES[mask.index()].len(),
+                    (0..CELL_TO_VERT_TO_EDGES[mask.index()].len())
+                        .map(|i| self.verts[index + i].pos.into())
+                        .collect(),
                 )),
                 Cell::Branch { index } => {
                     todo.extend(Corner::iter().map(|i| c.child(index, i)))
